@@ -53,7 +53,10 @@ def main():
   shapes = [(1, 1), (3, 4), (7, 5), (16, 3), (3, 3, 2, 4), (1, 1, 1, 1), (5, 5, 8, 16), (1024, 8), (2 ** 20, 1), (2 ** 20 - 1, 2),
             (2 ** 10 + 1, 3), (1, 3, 3, 7)]
   npairs = 60 if rep.tier == "quick" else 400
-  idx = rng.choice(len(ops) * len(ops), size=npairs, replace=False)
+  # every (weight mode, input mode) combination of the multiplier table is represented (the accumulator class depends on it)
+  allpairs = [(a, b) for a in range(len(ops)) for b in range(len(ops))]
+  chosen = vlib.stratified(allpairs, lambda ab: (ops[ab[0]][2].mode, ops[ab[1]][2].mode), npairs, rng, per=2)
+  idx = [a * len(ops) + b for a, b in chosen]
   for t in idx:
     wd, _, w = ops[t // len(ops)]
     xd, _, x = ops[t % len(ops)]
